@@ -84,12 +84,14 @@ class Interrupter(object):
         self.world = world
         self.count = 0
         self.at = None
+        self.fn = None
         self.prefix = env.REPO.rstrip("/") + "/PEPit/"
         self.fired_where = None
 
-    def arm(self, at):
+    def arm(self, at, fn=None):
         self.count = 0
         self.at = at
+        self.fn = fn
         self.fired_where = None
         sys.settrace(self._global)
 
@@ -106,6 +108,8 @@ class Interrupter(object):
 
     def _local(self, frame, event, arg):
         if event == "line":
+            if self.fn is not None and frame.f_code.co_name != self.fn:
+                return self._local
             self.count += 1
             if self.at is not None and self.count == self.at:
                 self.at = None
@@ -131,6 +135,7 @@ class SolveRecord(object):
         self.writes = 0
         self.ledger_snapshot = None
         self.injected = False
+        self.table_calls = []
 
 
 class World(object):
@@ -291,6 +296,28 @@ class World(object):
 
         Constraint.__init__ = c_init
         PSDMatrix.__init__ = p_init
+
+        # table-building calls of the generic generators (used by the C17 oracle only)
+        from PEPit.function import Function
+        orig_one = Function.add_constraints_from_one_list_of_points
+        orig_two = Function.add_constraints_from_two_lists_of_points
+
+        def one(self, list_of_points, constraint_name, set_class_constraint_i):
+            if world.cur is not None:
+                world.cur.table_calls.append({"f": self, "name": constraint_name, "l1": list(list_of_points),
+                                              "l2": None, "fn": set_class_constraint_i, "symmetry": False})
+            return orig_one(self, list_of_points, constraint_name, set_class_constraint_i)
+
+        def two(self, list_of_points_1, list_of_points_2, constraint_name, set_class_constraint_i_j, symmetry=False):
+            if world.cur is not None:
+                world.cur.table_calls.append({"f": self, "name": constraint_name, "l1": list(list_of_points_1),
+                                              "l2": list(list_of_points_2), "fn": set_class_constraint_i_j,
+                                              "symmetry": symmetry})
+            return orig_two(self, list_of_points_1, list_of_points_2, constraint_name, set_class_constraint_i_j,
+                            symmetry=symmetry)
+
+        Function.add_constraints_from_one_list_of_points = one
+        Function.add_constraints_from_two_lists_of_points = two
 
     def _created(self, obj, kind, origin, owner):
         rec = {"obj": obj, "kind": kind, "origin": origin, "owner": owner, "opi": self.current_opi,
@@ -736,6 +763,22 @@ class World(object):
             oracles.check_tables(self, op["f"], tabs)
         return {"value": out}
 
+    def op_check(self, op):
+        """Run an in-leg oracle now (e.g. handles built after the solve)."""
+        from sim import oracles
+        rec = None
+        for r in reversed(self.solves):
+            if r.exc is None and r.result is not None:
+                rec = r
+                break
+        if rec is None or self.solves[-1] is not rec:
+            return {"value": "skipped"}
+        if op["what"] == "handles":
+            oracles.check_handles(self, rec)
+        elif op["what"] == "attr_primal":
+            oracles.check_attr_primal(self, rec)
+        return None
+
     def op_attr(self, op):
         """Read a public attribute (names, counters) for the numbering observations of C12."""
         obj = self.get(op["h"])
@@ -781,7 +824,7 @@ class World(object):
                 self.stream.fail_at = w0 + int(faults["stdout"]["at"])
                 self.stream.fail_errno = getattr(errno, faults["stdout"].get("errno", "EPIPE"))
             if "interrupt" in faults:
-                self.interrupter.arm(int(faults["interrupt"]["at"]))
+                self.interrupter.arm(int(faults["interrupt"]["at"]), faults["interrupt"].get("fn"))
             elif op.get("count_lines"):
                 self.interrupter.arm(None)
             try:
@@ -814,7 +857,10 @@ class World(object):
                "wrapper_name": getattr(P, "wrapper_name", None)}
         if self.want_raw:
             out["raw"] = [c.raw_digest for c in rec.caps]
-            out["mosek_calls"] = hashlib.sha256(repr(rec.mosek_calls).encode()).hexdigest() if rec.mosek_calls else None
+            calls = [(c[0],) + tuple(c[2:]) if c[0] not in ("Env", "checkoutlicense", "expirylicenses") else c
+                     for c in rec.mosek_calls]
+            out["mosek_calls"] = hashlib.sha256(repr(calls).encode()).hexdigest() if calls else None
+            out["mosek_ncalls"] = len(calls)
         if rec.exc is not None:
             out["status"] = "exc"
             out["exc_type"] = type(rec.exc).__name__
